@@ -287,6 +287,12 @@ func (u *Universe) implFacts() []string {
 		}
 		out = append(out, "(assert (= (kindof 0) 0))")
 	}
+	if u.globalSet["(declare-fun cmpable (Int) Bool)"] {
+		for i, t := range u.tagTypes {
+			out = append(out, fmt.Sprintf("(assert (= (cmpable %d) %v))", i+1, types.Comparable(t)))
+		}
+		out = append(out, "(assert (cmpable 0))")
+	}
 	var names []string
 	for p := range u.ifaces {
 		names = append(names, p)
